@@ -192,6 +192,34 @@ def translate(repo):
     if nif != 6:
         raise TranslateError("getMove has %d if statements, 6 understood" % nif)
 
+    # ---- getPGMove
+    ge_ = function_body(pg, r"PolyglotBook::getPGMove\s*\([^)]*\)\s*\{", "PolyglotBook::getPGMove")
+    for nm, src in (("fromX", r"move\.from\(\)\.getX\(\)"), ("fromY", r"move\.from\(\)\.getY\(\)"),
+                    ("toX", r"move\.to\(\)\.getX\(\)"), ("toY", r"move\.to\(\)\.getY\(\)")):
+        if not re.search(r"int\s+%s\s*=\s*%s\s*;" % (nm, src), ge_):
+            raise TranslateError("translator cannot handle %s of getPGMove" % nm)
+    enc_castle = []
+    for mm in re.finditer(r"if\s*\(\s*\(\s*move\.from\(\)\s*==\s*(\w+)\s*\)\s*&&\s*\(\s*pos\.getPiece\(move\.from\(\)\)\s*==\s*Piece::(\w+)\s*\)\s*\)\s*\{"
+                          r"\s*if\s*\(\s*move\.to\(\)\s*==\s*(\w+)\s*\)\s*toX\s*=\s*Square\((\w+)\)\.getX\(\)\s*;"
+                          r"\s*if\s*\(\s*move\.to\(\)\s*==\s*(\w+)\s*\)\s*toX\s*=\s*Square\((\w+)\)\.getX\(\)\s*;\s*\}", ge_):
+        g = mm.groups()
+        for sname in (g[0], g[2], g[3], g[4], g[5]):
+            if sname not in SQUARES:
+                raise TranslateError("unknown square name %s in getPGMove" % sname)
+        enc_castle.append((SQUARES[g[0]], pieces[g[1]], SQUARES[g[2]], SQUARES[g[3]] & 7, SQUARES[g[4]], SQUARES[g[5]] & 7))
+    if len(enc_castle) != 2 or len(re.findall(r"\bif\b", ge_)) != 6:
+        raise TranslateError("translator cannot handle the castling conversion of getPGMove")
+    enc_prom = []
+    for mm in re.finditer(r"((?:case\s+Piece::\w+\s*:\s*)+)prom\s*=\s*(\w+)\s*;\s*break\s*;", ge_):
+        for pn in re.findall(r"Piece::(\w+)", mm.group(1)):
+            enc_prom.append((pieces[pn], parse_int(mm.group(2), "prom code")))
+    if len(enc_prom) != len(re.findall(r"\bcase\b", ge_)) or not re.search(r"int\s+prom\s*=\s*0\s*;", ge_):
+        raise TranslateError("translator cannot handle the promotion switch of getPGMove")
+    mm = re.search(r"return\s+toX\s*\|\s*\(\s*toY\s*<<\s*(\w+)\s*\)\s*\|\s*\(\s*fromX\s*<<\s*(\w+)\s*\)\s*\|\s*\(\s*fromY\s*<<\s*(\w+)\s*\)\s*\|\s*\(\s*prom\s*<<\s*(\w+)\s*\)\s*;", ge_)
+    if not mm:
+        raise TranslateError("translator cannot handle the return expression of getPGMove")
+    enc_shifts = [parse_int(x, "getPGMove shift") for x in mm.groups()]
+
     # ---- deSerialize field layout
     ds = function_body(pg, r"PolyglotBook::deSerialize\s*\([^)]*\)\s*\{", "PolyglotBook::deSerialize")
     layout = []
@@ -249,6 +277,13 @@ def translate(repo):
     out.append("(** getMove castling conversion: (from, piece on from, to1, to1', to2, to2') *)")
     out.append("Definition pgCastleConv : list (N * N * (N * N) * (N * N)) := [%s]%%N." % "; ".join(
         "(%d, %d, (%d, %d), (%d, %d))" % c for c in conv))
+    out.append("(** getPGMove castling conversion: (from, piece on from, (to1, new file1), (to2, new file2)) *)")
+    out.append("Definition pgEncCastle : list (N * N * (N * N) * (N * N)) := [%s]%%N." % "; ".join(
+        "(%d, %d, (%d, %d), (%d, %d))" % c for c in enc_castle))
+    out.append("(** getPGMove promotion switch: (promoteTo piece, code); other pieces give 0 *)")
+    out.append("Definition pgEncProm : list (N * N) := [%s]%%N." % "; ".join("(%d, %d)" % e for e in enc_prom))
+    out.append("Definition pgEnc_toY_shift : N := %d%%N.  Definition pgEnc_fromX_shift : N := %d%%N.  "
+               "Definition pgEnc_fromY_shift : N := %d%%N.  Definition pgEnc_prom_shift : N := %d%%N." % tuple(enc_shifts))
     out.append("(** deSerialize layout: offset and byte count of hash, move, weight *)")
     for nm, off, cnt in layout:
         out.append("Definition pg_%s_off : nat := %d.  Definition pg_%s_len : nat := %d." % (nm, off, nm, cnt))
